@@ -19,8 +19,11 @@ COMMON_TRUSTED = [
 
 
 def cls_default(verdict, case):
+    """class of a non-ok verdict: kind + operation/clause name, arguments stripped"""
     w = verdict.split()
-    return "-".join(w[:2]) if len(w) >= 2 else verdict
+    if len(w) < 2:
+        return verdict
+    return w[0] + "-" + re.sub(r"\(.*$", "", w[1])
 
 
 def nontrivial_res(line):
@@ -49,6 +52,27 @@ PROPS = {
         level_note="trusted: Lean kernel, translator T1/T5, the float64 product inside mulValRatio (modelled by its truncation), amd64 float->int conversion, hand-written vector model tied by correspondence only; strings restricted to valid UTF-8",
         technique="Lean 4 proof over a model regenerated from source (T1) + differential correspondence",
         design_ref="DESIGN.md section 4 C18",
+    ),
+    "C20": dict(
+        module="YkProps.C20",
+        leancheck=["YkModel.Ring", "YkModel.Stream", "YkProofs.Ring", "YkProps.C20"],
+        runs=[dict(comp="ring", quick=2400, thorough=64000), dict(comp="stream", quick=640, thorough=8000)],
+        classify=cls_default,
+        nontrivial=lambda line: '"op":"reset"' not in line and '"op":"sreset"' not in line,
+        rule="ring: random histories (capacity 1..24, <=70 ops: add, bursts that wrap the buffer, resize to 1..2*cap, GetEventsFromID with start in [lowest-2,last+2] and count in {0,1,2,cap-1,cap,cap+1,MaxUint64,..}, GetRecentEvents) on the real eventRingBuffer (hook), "
+             "event store histories (store/collect/setSize); stream: random interleavings of the event loop (add;publish) with CreateEventStream (register | yield hook | read history) on the real EventStreaming. "
+             "Every line is one operation with the implementation's answer; non-trivial = not a reset line; distinct = distinct protocol lines",
+        trusted=["event ids and capacities below 2^63 (the model uses Nat; uint64 wrap of ids is not modelled)",
+                 "Go channels / goroutine scheduling of the bridging goroutine: the model covers the interleavings of registration, history read, add and publish; delivery is awaited with a 15 ms quiet period",
+                 "REST /ws/v1/events/batch handler and EventSystem glue (not modelled)"],
+        assumptions=["capacity > 0 (getRingBufferCapacity never returns 0)", "single event-loop goroutine (add then publish per event)"],
+        level_text="Lean 4 refinement proof: for every history of adds and resizes the field-for-field model of eventRingBuffer refines the abstract history (ids consecutive, most recent events up to capacity kept across resizes, "
+                   "GetEventsFromID = exactly the requested gap-free range or nothing plus the available range, GetRecentEvents = the last min(count, available) events), event-store batch bound; "
+                   "stream set-up: proof for every interleaving that the subscriber gets history then later events once and in order under the stated coverage hypothesis, plus the machine-checked refutation of the unrestricted statement (known finding). "
+                   "Tie: correspondence of the hand-written model against the real ring buffer / store / EventStreaming (yield hook).",
+        level_note="trusted: Lean kernel; hand-written Ring/Store/Stream models tied by correspondence only; ids < 2^63; channel delivery; REST glue not modelled",
+        technique="Lean 4 refinement proof (ring buffer -> abstract history) + differential correspondence on the real code",
+        design_ref="DESIGN.md section 4 C20",
     ),
 }
 
@@ -134,10 +158,13 @@ def decide(run, cfg, replay):
             print("KNOWN-FINDING: property=%s %s %s" % (pid, cl, desc))
         else:
             print("note: known finding %s of %s did not reproduce in this run" % (cl, pid))
-    for cl, (path, v) in sorted(violations.items()):
+    for i, (cl, (path, v)) in enumerate(sorted(violations.items())):
+        rc = 1
+        if i >= 8:
+            print("  ... %d more violation classes (see evidence)" % (len(violations) - 8))
+            break
         print("VIOLATION property=%s replay=%s" % (pid, path))
         print("  class=%s %s" % (cl, v[:300]))
-        rc = 1
     if tie_broken and not violations:
         body = ["tie between model and code broken for %s; no concrete failing input found by the search" % pid]
         for what, log in tie_broken:
